@@ -5,18 +5,20 @@ import re
 
 from . import common, fsbox, pipeline, rstobs
 
-DIRNAMES = ["b", "lib.cmake", "a-1", "c.d"]      # the second one is a *directory* named like a CMake file
+DIRNAMES = ["b", "lib.cmake", ".ci", "a-1"]      # a directory named like a CMake file, a hidden directory      # the second one is a *directory* named like a CMake file
 CONTENT = {
     "empty": [],
     "txt": ["n.txt"],
     "one": ["a.cmake"],
     "two": ["a.cmake", "b.cmake"],
     "mixedcase": ["a.cmake", "B.CMake"],
+    "mixedcase_c": ["a.cmake", "B.CMake", "n.c", "m.MD"],     # extensions that sort between 'CMake' and 'cmake' 
     "dots": ["x.y-z.cmake", "n.txt"],
     "nodot": ["a.cmake", "cmake"],
     "stemorder": ["a.cmake", "a-b.cmake"],
     "cmakeinname": ["a.cmake", "a.cmake-3.cmake"],     # '.cmake' occurs in front of the real extension
     "dotfile": [".defaults.cmake"],
+    "formfeed": ["a.cmake", "ff.cmake"],       # ff.cmake's doccomment holds FF and LS characters
     "indexfile": ["a.cmake", "index.cmake"],    # its page has the path of the directory index (known finding K4)
     "indexfile_renamed": ["a.cmake", "index_.cmake"],      # 'a-b.cmake' < 'a.cmake' but 'a' < 'a-b'
 
